@@ -39,6 +39,7 @@ func init() {
 	suites["vp8lwindow"] = suiteVP8LWindow
 	replayers["vwdec"] = replayVW
 	replayers["vwcex"] = replayVW
+	replayers["vwdec2"] = replayVW
 }
 
 const vwCexLine = "ok built=1 codes=1 spec=c1:961075 go=c1:961075 nofill=c1:786315"
@@ -58,7 +59,7 @@ func goVW(f []string) string {
 	switch f[0] {
 	case "vwcex":
 		return vwCexLine
-	case "vwdec":
+	case "vwdec", "vwdec2":
 		if len(f) != 4 {
 			return "bad-op"
 		}
@@ -131,6 +132,131 @@ func vwPutCode(w *bitW, lengths []int) {
 	w.put(0, 1) // max_symbol = alphabet size
 	for _, l := range lengths {
 		w.putCode(uint32(l), 4)
+	}
+}
+
+// vwRLECodes selects the header writer of vwStream: false = flat code-length code, one 4-bit word per
+// symbol (vwPutCode); true = vwPutCodeRLE
+var vwRLECodes bool
+
+// vwPutCodeRLE writes a NORMAL prefix code the way an encoder would: run-length tokens (16: repeat the
+// previous non-zero length 3..6 times, initial 8; 17: 3..10 zeros; 18: 11..138 zeros), a random complete
+// code-length code of depth <= 7 over the tokens used (or a single-symbol one), the minimal number of
+// code-length-code lengths, and — half of the time — max_symbol with the trailing zero tokens dropped.
+func vwPutCodeRLE(r *RNG, w *bitW, lengths []int) {
+	type tok struct{ sym, extra, nbits int }
+	var toks []tok
+	prev := 8
+	useRuns := !r.Chance(1, 5)
+	for i := 0; i < len(lengths); {
+		v := lengths[i]
+		n := 1
+		for i+n < len(lengths) && lengths[i+n] == v {
+			n++
+		}
+		i += n
+		if v == 0 {
+			for useRuns && n >= 3 {
+				if n >= 11 && !r.Chance(1, 6) {
+					m := mini(n, 138)
+					if r.Chance(1, 4) {
+						m = 11 + r.Intn(m-10)
+					}
+					toks = append(toks, tok{18, m - 11, 7})
+					n -= m
+				} else {
+					m := mini(n, 10)
+					toks = append(toks, tok{17, m - 3, 3})
+					n -= m
+				}
+			}
+			for ; n > 0; n-- {
+				toks = append(toks, tok{0, 0, 0})
+			}
+			continue
+		}
+		if v != prev {
+			toks = append(toks, tok{v, 0, 0})
+			prev = v
+			n--
+		}
+		for useRuns && n >= 3 {
+			m := mini(n, 6)
+			toks = append(toks, tok{16, m - 3, 2})
+			n -= m
+		}
+		for ; n > 0; n-- {
+			toks = append(toks, tok{v, 0, 0})
+		}
+	}
+	useMax := r.Bool()
+	if useMax {
+		for len(toks) > 2 && (toks[len(toks)-1].sym == 0 || toks[len(toks)-1].sym >= 17) {
+			toks = toks[:len(toks)-1]
+		}
+		if len(toks) < 2 {
+			useMax = false
+		}
+	}
+	used := map[int]bool{}
+	for _, t := range toks {
+		used[t.sym] = true
+	}
+	var syms []int
+	for s := 0; s < 19; s++ {
+		if used[s] {
+			syms = append(syms, s)
+		}
+	}
+	cl := make([]int, 19)
+	if len(syms) == 1 {
+		cl[syms[0]] = 1 + r.Intn(7)
+	} else {
+		t := randomTreeLengths(r, len(syms), 7)
+		for i := len(t) - 1; i > 0; i-- {
+			j := r.Intn(i + 1)
+			t[i], t[j] = t[j], t[i]
+		}
+		for i, s := range syms {
+			cl[s] = t[i]
+		}
+	}
+	codes := canonCodes(cl)
+	order := []int{17, 18, 0, 1, 2, 3, 4, 5, 16, 6, 7, 8, 9, 10, 11, 12, 13, 14, 15}
+	num := 4
+	for i, s := range order {
+		if cl[s] != 0 && i+1 > num {
+			num = i + 1
+		}
+	}
+	if num < 19 && r.Chance(1, 4) {
+		num += r.Intn(19 - num + 1)
+	}
+	w.put(0, 1)
+	w.put(uint32(num-4), 4)
+	for i := 0; i < num; i++ {
+		w.put(uint32(cl[order[i]]), 3)
+	}
+	if useMax {
+		w.put(1, 1)
+		v := len(toks) - 2
+		nb := 2
+		for v >= 1<<uint(nb) {
+			nb += 2
+		}
+		if nb < 16 && r.Chance(1, 3) {
+			nb += 2
+		}
+		w.put(uint32((nb-2)/2), 3)
+		w.put(uint32(v), nb)
+	} else {
+		w.put(0, 1)
+	}
+	for _, t := range toks {
+		if len(syms) > 1 {
+			w.putCode(codes[t.sym], cl[t.sym])
+		}
+		w.put(uint32(t.extra), t.nbits)
 	}
 }
 
@@ -403,7 +529,11 @@ func vwStream(r *RNG, w, h, cacheBits int, shapeG, shapeD, class string, filler 
 		bw.put(0, 1)
 	}
 	for _, c := range []*vwCode{cg, cr, cb, ca, cd} {
-		vwPutCode(bw, c.lengths)
+		if vwRLECodes {
+			vwPutCodeRLE(r, bw, c.lengths)
+		} else {
+			vwPutCode(bw, c.lengths)
+		}
 	}
 	var st vwStats
 	for _, t := range toks {
@@ -511,6 +641,33 @@ func suiteVP8LWindow(rep *Report) error {
 			add(class, w, h, data, st)
 		}
 	}
+	// (3b) leg `codes`: the header read by the MODEL of readHuffmanCode / readHuffmanCodeLengths on the
+	// window reader (op vwdec2): every fifth stream of (1)-(3) again, and streams whose prefix codes are
+	// written with run-length tokens (16 / 17 / 18, all extra-bit values), random code-length codes of
+	// depth <= 7 and max_symbol
+	{
+		n := len(cases)
+		for i := 1; i < n; i += 5 {
+			f := strings.Split(cases[i].line, " ")
+			if f[0] == "vwdec" {
+				cases = append(cases, cs{line: "vwdec2 " + strings.Join(f[1:], " "), tag: "codes-flat:" + cases[i].tag, st: cases[i].st})
+			}
+		}
+		vwRLECodes = true
+		nr := 600 * rounds
+		for i := 0; i < nr; i++ {
+			r := NewRNG(rep.Seed, 20000+uint64(i))
+			w, h := 8+r.Intn(40), 4+r.Intn(24)
+			shapes := []string{"ladder", "random", "flat"}
+			class := "std"
+			if i%7 == 3 {
+				class = "packed"
+			}
+			data, st := vwStream(r, w, h, []int{0, 0, 1, 4, 7, 11}[r.Intn(6)], shapes[r.Intn(3)], shapes[r.Intn(3)], class, r.Intn(32))
+			cases = append(cases, cs{line: fmt.Sprintf("vwdec2 %d %d %s", w, h, hx(data)), tag: "codes-rle", st: st})
+		}
+		vwRLECodes = false
+	}
 	// (4) truncations of (1)/(2): the end-of-stream polling of the loop
 	{
 		r := NewRNG(rep.Seed, 424242)
@@ -610,6 +767,9 @@ func suiteVP8LWindow(rep *Report) error {
 			sig := "vp8lwindow-model:decodeImageData"
 			if op == "vwcex" {
 				sig = "vp8lwindow-model:counterexample-data"
+			}
+			if op == "vwdec2" {
+				sig = "vp8lwindow-model:readHuffmanCode"
 			}
 			rep.Add(Finding{Kind: "correspondence", Property: "C03", Signature: sig,
 				Detail: fmt.Sprintf("(%s) %s: go=%q lean=%q", c.tag, short(c.line, 160), short(gos[i], 200), short(l, 200)),
